@@ -79,10 +79,15 @@ br_hkdf_produce(br_hkdf_context *hc,
 			br_hmac_context hmac_ctx;
 			unsigned char x;
 
-			hc->chunk_num ++;
-			if (hc->chunk_num == 256) {
+			if (hc->chunk_num == 255) {
+				/*
+				 * No more than 255 blocks (RFC 5869); the
+				 * counter is left as is, so that further
+				 * calls produce nothing either.
+				 */
 				return tlen;
 			}
+			hc->chunk_num ++;
 			x = hc->chunk_num;
 			br_hmac_init(&hmac_ctx, &hc->u.prk_ctx, 0);
 			if (x != 1) {
